@@ -13,7 +13,7 @@ system over an abstract lock backend.
             if lock is None:                                            -- SET_LOCK disabled on the owning backend
                 yield; return                                           --   "no locking": task is `unguarded`
             if not lock:
-                if await self.ping(b"LOCK") is None:                    -- liveness probe of the OWNING backend
+                if await self._lock_probe(key) is None:                 -- liveness probe of the OWNING backend
                     yield; return                                       --   "backend down": task is `unguarded`
                 if wait:
                     await asyncio.sleep(check_interval)                 -- (other actions / `tick` / `giveUp` on cancel)
@@ -37,9 +37,8 @@ owns it (longest registered prefix, C17) and passes that backend's disable-contr
 disabled command answers `None`.  The two things `lock()` learns that way - "SET_LOCK is enabled",
 "the backend answers PING" - are the *inputs* of an attempt (`attemptCore`); `step` reads them off the
 owning backend (`s.health (s.route key)`), never off another configured backend.
-(Known deviation of /repo HEAD, reported with `proposed_fixes/C06_lock_probe_routed_by_key.diff`: the
-facade routes `ping(b"LOCK")` by the text of the message, i.e. to the default-prefix backend; the model
-states the intended behaviour and the harness keeps the two backends' PING health aligned.)
+(`CommandWrapper._lock_probe(key)` routes the probe by the lock key; D43: it used to be routed by the text
+of its message `b"LOCK"`, i.e. to the default-prefix backend.)
 
 Transactions (`cache.transaction(mode)`, a ContextVar-scoped overlay per real task =: thread):
 `TransactionBackend.set_lock / unlock / is_locked / ping` proxy to the wrapped backend, i.e. the lock
